@@ -40,6 +40,9 @@ def plan(tier, seed):
     return specs
 
 
+_SUBCLASSES = {}
+
+
 def routes(tokens, ue):
     """Construct the same pointer by every route; returns {route: pointer}."""
     import jsonpath
@@ -68,6 +71,16 @@ def routes(tokens, ue):
         out["slash"] = slashed
     for cname, carrier in (("iter", lambda: iter(list(tokens))), ("generator", lambda: (t for t in tokens)), ("map", lambda: map(str, tokens)), ("tuple", lambda: tuple(tokens)), ("dict-keys", lambda: dict.fromkeys(tokens).keys() if len(set(tokens)) == len(tokens) else list(tokens))):
         out["from_parts(%s)" % cname] = (lambda c=carrier: JSONPointer.from_parts(c(), unicode_escape=ue))
+    # subclasses of the pointer class (plain, and overriding the documented keys_selector / index limits): pointers are
+    # equal exactly when their tokens are, whatever class built them
+    if "sub" not in _SUBCLASSES:
+        _SUBCLASSES["sub"] = type("PlainSub", (JSONPointer,), {})
+        _SUBCLASSES["at"] = type("AtSub", (JSONPointer,), {"keys_selector": "@"})
+        _SUBCLASSES["lim"] = type("LimSub", (JSONPointer,), {"max_int_index": 2 ** 60, "min_int_index": -(2 ** 60)})
+    out["subclass(parse)"] = lambda: _SUBCLASSES["sub"](text, unicode_escape=ue)
+    out["subclass-with-own-keys_selector(parse)"] = lambda: _SUBCLASSES["at"](text, unicode_escape=ue)
+    out["subclass-with-own-keys_selector(from_parts)"] = lambda: _SUBCLASSES["at"].from_parts(list(tokens), unicode_escape=ue)
+    out["subclass-with-wider-limits(parse)"] = lambda: _SUBCLASSES["lim"](text, unicode_escape=ue)
     out["copy"] = lambda: copy.copy(JSONPointer(text, unicode_escape=ue))
     out["deepcopy"] = lambda: copy.deepcopy(JSONPointer.from_parts(list(tokens), unicode_escape=ue))
     out["pickle"] = lambda: pickle.loads(pickle.dumps(JSONPointer(text, unicode_escape=ue)))
